@@ -41,7 +41,7 @@ func dslValidationFiles(f string) bool {
 }
 
 func init() {
-	reg("C05", ruleInverseInvolution, ruleWrapperRecursion, ruleChangeKindsConsumed, ruleEndStream, ruleComparersConsultTheirData, rulePreviousSchemasPositional)
+	reg("C05", ruleInverseInvolution, ruleWrapperRecursion, ruleChangeKindsConsumed, ruleEndStream, ruleComparersConsultTheirData, rulePreviousSchemasPositional, ruleOldTypesOnTheOldWire)
 	reg("C06", ruleOptionalDeref(evolutionFiles, "NP1", 3), ruleWrapperRecursion, ruleChangeKindsConsumed, ruleChangeDataUsed, ruleComparersConsultTheirData, ruleE3(evoScope, "E3"), ruleE2(evoScope, "E2"), ruleE5(evoScope, "E5"), ruleMapOrderScoped, rulePrunesPartial(evolutionFiles, "V5", 3))
 	reg("C04", ruleOneSchemaFunction, ruleMarshalCoverage, ruleSchemaCanonical, rulePrunes(schemaFiles, "V5", 2), ruleRewriterDescends(schemaFiles, "V8", 2), ruleStateMachineSchemaCheck)
 	reg("C01", rulePlan, ruleRecordOrder, ruleDirectionDuality, ruleCppPrimitiveFamilies, ruleStepFraming, ruleEmptyBatchGuard, ruleEndStream, ruleTrivialRecordTrait)
